@@ -2459,7 +2459,13 @@ class Graph:
             """
             for deme in data["demes"]:
                 for epoch in deme["epochs"]:
-                    if epoch["size_function"] in ("constant", "exponential"):
+                    # Only omit a size_function that resolution infers again:
+                    # "constant" for equal sizes, "exponential" otherwise.
+                    if epoch["size_function"] == (
+                        "constant"
+                        if epoch["start_size"] == epoch["end_size"]
+                        else "exponential"
+                    ):
                         del epoch["size_function"]
                     if epoch["start_size"] == epoch["end_size"]:
                         del epoch["end_size"]
@@ -2473,7 +2479,10 @@ class Graph:
                 if math.isinf(deme["start_time"]):
                     del deme["start_time"]
                 if "ancestors" in deme and len(deme["ancestors"]) == 1:
-                    del deme["proportions"]
+                    # The inferred proportion is exactly 1; a value that is
+                    # only close to 1 has to be kept.
+                    if deme["proportions"] == [1]:
+                        del deme["proportions"]
                     # start time needed for more than 1 ancestor
                     if self[deme["ancestors"][0]].end_time == deme["start_time"]:
                         del deme["start_time"]
